@@ -227,8 +227,11 @@ def _unescaped_len_invariant(prog: Program) -> Optional[str]:
             and isinstance(p.body[0], ast.Continue) and not p.orelse):
         return None
     outer = parent(p)
-    if not (isinstance(outer, ast.If) and
-            src(outer.test).replace('"', "'") == "char == '\\\\'"):
+    t = outer.test if isinstance(outer, ast.If) else None
+    if not (isinstance(t, ast.Compare) and len(t.ops) == 1 and
+            isinstance(t.ops[0], ast.Eq) and isinstance(t.left, ast.Name) and
+            isinstance(t.comparators[0], ast.Constant) and
+            t.comparators[0].value == "\\"):
         return None
     esc = prog.func("YAMLPath.escaped")
     une = prog.func("YAMLPath.unescaped")
@@ -265,10 +268,15 @@ def _int_attrs_only_for_index(prog: Program) -> Optional[str]:
     fi = prog.func("YAMLPath._parse_path")
     kinds = Kinds(prog, fi)
     n_app = 0
+    rets = {src(n.value) for n in walk_local(fi.node)
+            if isinstance(n, ast.Return) and isinstance(n.value, ast.Name)}
+    if len(rets) != 1:
+        return None
+    segvar = rets.pop()
     for n in walk_local(fi.node):
         if isinstance(n, ast.Call) and isinstance(n.func, ast.Attribute) and \
                 n.func.attr == "append" and \
-                src(n.func.value) == "path_segments" and n.args:
+                src(n.func.value) == segvar and n.args:
             arg = n.args[0]
             if isinstance(arg, ast.Tuple) and len(arg.elts) == 2:
                 n_app += 1
@@ -384,9 +392,10 @@ def _pair_subscript(prog: Program, site: partial.Site, inv_anc: Optional[str]
     if isinstance(inner, ast.Subscript) and "ancestry" in src(inner.value) \
             and inv_anc:
         return inv_anc + " (inner subscript checked separately)"
-    if isinstance(inner, ast.Subscript) and (
-            src(inner.value) in ("segments", "yaml_path.escaped",
-                                 "yaml_path.unescaped")):
+    if isinstance(inner, ast.Subscript) and isinstance(
+            subst(inner.value, aliases(site.fi)), ast.Attribute) and \
+            subst(inner.value, aliases(site.fi)).attr in (  # type: ignore
+                "escaped", "unescaped"):
         return ("path segments are (type, attributes) pairs built by the "
                 "parser (C14/C08); inner subscript checked separately")
     if isinstance(inner, ast.Name):
@@ -668,7 +677,7 @@ def _check_hash(chk: Check, fi: FuncInfo, node: ast.AST, cont: ast.AST,
     if {"list", "dict", "set"} <= neg or {"list", "dict"} <= neg:
         chk.ok("C15-D2d", fi, node, text, "guarded by a scalar test")
         return
-    chk.fail("C15-D2d", fi, node, text,
+    chk.fail("C15-D2d", fi, node, "<local dict>[<document value>]",
              "document value `{}` is used as a key of the local dict `{}`; "
              "a list or hash member is unhashable (TypeError)".format(
                  src(key), cont.id))
